@@ -37,7 +37,14 @@ def program(crate):
             text = open(mir_file).read()
         else:
             text, root = G.dump_mir(common.REPO, crate, 'sync' if crate == 'simple-mdns' else None, sc)
-        _PROGS[crate] = G.Program(text, root, crate)
+        if crate == 'simple-mdns':
+            # simple-mdns calls into simple-dns: one program over both dumps
+            dns = program('simple-dns')
+            text = dns.mir_text + '\n' + text
+            _PROGS[crate] = G.Program(text, root, 'simple-dns', extra_crates=['simple-mdns'])
+        else:
+            _PROGS[crate] = G.Program(text, root, crate)
+        _PROGS[crate].mir_text = text
     return _PROGS[crate]
 
 
@@ -148,9 +155,47 @@ def build_replay_overlay(crate='simple-dns'):
     return dst
 
 
+def native_run_mdns(case, release=False):
+    """simple-mdns cases: a generated #[cfg(test)] module inside a scratch copy of the whole workspace"""
+    from lib import common
+    dst = os.path.join(_scratch(), 'replay-mdns')
+    if not os.path.exists(dst):
+        os.makedirs(dst)
+        for item in ('Cargo.toml', 'Cargo.lock', 'simple-dns', 'simple-mdns'):
+            s_, d_ = os.path.join(common.REPO, item), os.path.join(dst, item)
+            if os.path.isdir(s_):
+                shutil.copytree(s_, d_, ignore=shutil.ignore_patterns('target'))
+            else:
+                shutil.copy(s_, d_)
+        with open(os.path.join(dst, 'simple-mdns', 'src', 'lib.rs'), 'a') as f:
+            f.write('\n#[cfg(test)]\n#[allow(dead_code, unused_imports, clippy::all)]\nmod verif_case;\n')
+        with open(os.path.join(dst, 'simple-mdns', 'src', 'resource_record_manager.rs'), 'a') as f:
+            f.write('\n#[cfg(test)]\npub(crate) fn get_key_for_test(name: &Name) -> Vec<u8> {\n    get_key(name)\n}\n')
+    prelude = open(os.path.join(REPLAY_SRC, 'mdns_prelude.rs')).read()
+    with open(os.path.join(dst, 'simple-mdns', 'src', 'verif_case.rs'), 'w') as f:
+        f.write(prelude + '\n' + case['code'])
+    env = common.env_offline({'CARGO_TARGET_DIR': os.path.join(_scratch(), 'replay-target-mdns')})
+    cmd = ['cargo', 'test', '--offline', '-p', 'simple-mdns', '--features', 'sync', '--lib', 'verif_case', '--quiet']
+    if release:
+        cmd.append('--release')
+    cmd += ['--', '--nocapture', '--test-threads', '1']
+    try:
+        p = subprocess.run(cmd, cwd=dst, env=env, capture_output=True, text=True, timeout=900)
+    except subprocess.TimeoutExpired:
+        return {'outcome': 'hang'}
+    for line in (p.stdout + p.stderr).split('\n'):
+        if line.startswith('REPLAY-RESULT '):
+            return json.loads(line[len('REPLAY-RESULT '):])
+    if 'panicked at' in p.stdout + p.stderr:
+        return {'outcome': 'panic', 'log': (p.stdout + p.stderr)[-800:]}
+    return {'outcome': 'no-result', 'log': (p.stdout + p.stderr)[-1500:]}
+
+
 def native_run(case, release=False):
     """run one replay case natively; returns the parsed REPLAY-RESULT json or None"""
     from lib import common
+    if case.get('entry') == 'mdns_test':
+        return native_run_mdns(case, release)
     dst = build_replay_overlay()
     cpath = os.path.join(_scratch(), 'case.json')
     with open(cpath, 'w') as f:
